@@ -511,6 +511,107 @@ fn fixed_custom_scalar() -> Vec<Vec<Def>> {
     ]
 }
 
+// ---------------------------------------------------------------- single-fault family (generator audit G3)
+//
+// The random "dirty" documents break several rules at once, so a rule that is no longer enforced hides behind the
+// other errors.  Here a document that VALIDATES gets exactly one fault of a class the property names — an undefined
+// spread, an undefined variable, a composite field without sub-selection, a leaf field with one — at EVERY site of
+// the document in turn; the implementation must reject each of them (oracles `valid-*`).
+
+/// pre-order walk over selection sets (`want_sel` = false) or selections (`want_sel` = true); `f` runs at site `target`
+fn walk_sites(set: &mut Vec<Sel>, n: &mut usize, target: usize, want_sel: bool, f: &mut dyn FnMut(&mut Vec<Sel>, Option<usize>)) -> bool {
+    if !want_sel { if *n == target { f(set, None); return true; } *n += 1; }
+    for i in 0..set.len() {
+        if want_sel { if *n == target { f(set, Some(i)); return true; } *n += 1; }
+        let child = match &mut set[i] { Sel::Field { sub, .. } | Sel::Inline { sub, .. } => Some(sub), Sel::Spread { .. } => None };
+        if let Some(sub) = child { if !sub.is_empty() && walk_sites(sub, n, target, want_sel, f) { return true; } }
+    }
+    false
+}
+
+/// apply `f` at site `target` of the document (subscriptions are left alone: one root field only); returns the number
+/// of sites when `target` is out of range
+fn at_site(defs: &mut [Def], target: usize, want_sel: bool, f: &mut dyn FnMut(&mut Vec<Sel>, Option<usize>)) -> Result<(), usize> {
+    let mut n = 0usize;
+    for d in defs.iter_mut() {
+        let sels = match d { Def::Op(o) if o.ty != 2 => &mut o.sels, Def::Frag(fr) => &mut fr.sels, _ => continue };
+        if walk_sites(sels, &mut n, target, want_sel, f) { return Ok(()); }
+    }
+    Err(n)
+}
+
+fn undef_var_dir(variant: usize) -> p20::Dir {
+    // 0: `@skip(if: $v)`; 1–4: `@c` with the variable in a list, in an object, in an object inside a list, in a nested list
+    // (never 0 for `variant = 1 + k % 4`: definitions take no `@skip`)
+    match variant % 5 {
+        0 => p20::Dir { name: "skip".into(), args: vec![varg("if", p20::Val::Var("undef9".into()))] },
+        1 => p20::Dir { name: "c".into(), args: vec![varg("l", p20::Val::List(vec!["undef9".into()]))] },
+        2 => p20::Dir { name: "c".into(), args: vec![varg("o", p20::Val::Obj(vec!["undef9".into()]))] },
+        3 => p20::Dir { name: "c".into(), args: vec![varg("d", p20::Val::Deep(vec!["undef9".into()]))] },
+        _ => p20::Dir { name: "c".into(), args: vec![varg("d", p20::Val::Deep(vec!["_".into(), "undef9".into()]))] },
+    }
+}
+
+fn single_fault_family(ctx: &mut Ctx, views: &[View], max_docs: usize) {
+    let mut produced = 0usize;
+    let mut bases = 0usize;
+    let mut attempts = 0usize;
+    while produced < max_docs && attempts < 20 * max_docs {
+        attempts += 1;
+        let base = p20::gen_doc(&mut ctx.rng, true);
+        let text = p20::doc_text(&base);
+        if !ExecutableDocument::parse_and_validate(&views[0].schema, text, "b.graphql").is_ok() { continue; }
+        bases += 1;
+        ctx.stat("fault_base_documents");
+        // 0 undefined spread, 1 leaf with sub-selection, 2 composite without sub-selection, 3 undefined variable at a selection
+        for kind in 0..4usize {
+            let want_sel = kind != 0;
+            let n_sites = at_site(&mut base.clone(), usize::MAX, want_sel, &mut |_, _| {}).unwrap_err();
+            for site in 0..n_sites {
+                let mut d = base.clone();
+                let mut applied = false;
+                let variant = site + bases;
+                let _ = at_site(&mut d, site, want_sel, &mut |set, pos| {
+                    match (kind, pos) {
+                        (0, None) => {
+                            let sp = Sel::Spread { frag: "Undef9".into(), dirs: if variant % 3 == 1 { vec![p20::Dir { name: "skip".into(), args: vec![varg("if", p20::Val::Bool(false))] }] } else { vec![] } };
+                            let new = if variant % 3 == 2 { Sel::Inline { tc: None, dirs: vec![], sub: vec![sp] } } else { sp };
+                            let at = variant % (set.len() + 1);
+                            set.insert(at, new);
+                            applied = true;
+                        }
+                        (1, Some(i)) | (2, Some(i)) => {
+                            if let Sel::Field { name, args, sub, .. } = &set[i] {
+                                let leaf = sub.is_empty();
+                                if (kind == 1) != leaf { return; }
+                                let new_sub = if leaf { vec![fld("__typename", vec![])] } else { vec![] };
+                                let copy = Sel::Field { alias: Some("zq".into()), name: name.clone(), dirs: vec![], args: args.clone(), sub: new_sub };
+                                set.insert(i + 1, copy);
+                                applied = true;
+                            }
+                        }
+                        (3, Some(i)) => {
+                            match &mut set[i] { Sel::Field { dirs, .. } | Sel::Inline { dirs, .. } | Sel::Spread { dirs, .. } => dirs.push(undef_var_dir(variant)) }
+                            applied = true;
+                        }
+                        _ => {}
+                    }
+                });
+                if !applied { continue; }
+                produced += 1;
+                one_on(ctx, views, &d, ["fault_undefined_spread", "fault_leaf_with_subselection", "fault_composite_without_subselection", "fault_undefined_variable"][kind], Some(0));
+            }
+        }
+        // the undefined variable in the directives of every definition
+        for di in 0..base.len() {
+            let mut d = base.clone();
+            match &mut d[di] { Def::Op(o) if o.ty == 0 => o.dirs.push(undef_var_dir(1 + (di + bases) % 4)), Def::Frag(f) => f.dirs.push(undef_var_dir(1 + (di + bases) % 4)), _ => continue }
+            produced += 1;
+            one_on(ctx, views, &d, "fault_undefined_variable", Some(0));
+        }
+    }
+}
+
 pub fn run(ctx: &mut Ctx) {
     let mut views = vec![];
     for (n, src) in [("A", p20::SCHEMA_A), ("B", p20::SCHEMA_B), ("C", p20::SCHEMA_C), ("J", SCHEMA_J)] {
@@ -535,4 +636,6 @@ pub fn run(ctx: &mut Ctx) {
         let d = p20::gen_doc(&mut ctx.rng, clean);
         one(ctx, &views, &d, if clean { "clean" } else { "dirty" });
     }
+    let max_faults = if ctx.thorough { 25_000 } else { 2_500 };
+    single_fault_family(ctx, &views, max_faults);
 }
